@@ -116,7 +116,7 @@ func concurrentCase(r *run.R, i int, cfg storeCfg, st stats) (complaint string) 
 							as = append(as, addrArg{Base: b})
 						}
 					}
-					if _, err := s.ab.ConsumePeerRecord(uni.envelope(p, uint64(8+rng.IntN(5)), as), pickTTL(rng)); err != nil {
+					if _, err := s.ab.ConsumePeerRecord(uni.seal(p, uint64(8+rng.IntN(5)), as), pickTTL(rng)); err != nil {
 						complain("ConsumePeerRecord returned error %v under concurrent use", err)
 					}
 				case 7:
